@@ -4,6 +4,7 @@ package pilosa
 // real coordinator cluster, recording broadcaster, explicit delivery steps with quiescence waits.
 
 import (
+	"os"
 	"sync/atomic"
 	"testing"
 )
@@ -39,13 +40,10 @@ func vC22WitnessComplete(e *vC22Env, name string, job int64, node, errStr string
 	})
 }
 
-// D23: (a) completion for an unknown job panics; (b) a failed completion for a job that has ended blocks its
-// handler forever (send on the unbuffered result channel nobody receives from); (c) a duplicate of the last
-// successful completion, delivered after the coordinator received DONE and before it completed the job,
-// blocks in that send while holding j.mu and dead-locks the coordinator on cluster.mu.
-func TestVerifWitness_D23(t *testing.T) {
+// DX3 (first item of D23 in DESIGN.md): a completion message for an unknown job id dereferences a nil job.
+func TestVerifWitness_DX3(t *testing.T) {
 	e := vC22NewEnv(t, []string{"node-a"}, 1)
-	// (a)
+	defer os.RemoveAll(e.dir)
 	d := vC22WitnessComplete(e, "complete job=unknown", 4243, "node-a", "")
 	if d.panicked != nil {
 		t.Fatalf("completion for an unknown job: handler panicked: %v", d.panicked)
@@ -53,12 +51,23 @@ func TestVerifWitness_D23(t *testing.T) {
 	if !d.returned() || d.err == nil {
 		t.Fatalf("completion for an unknown job: returned=%v err=%v, want an error", d.returned(), d.err)
 	}
+	e.c.close()
+	e.h.Close()
+}
+
+// D23: (b) a failed completion for a job that has ended blocks its handler forever (send on the unbuffered
+// result channel nobody receives from); (c) a duplicate of the last successful completion, delivered after the
+// coordinator received DONE and before it completed the job, blocks in that send while holding j.mu and
+// dead-locks the coordinator on cluster.mu.
+func TestVerifWitness_D23(t *testing.T) {
+	e := vC22NewEnv(t, []string{"node-a"}, 1)
+	defer os.RemoveAll(e.dir)
 	// (b)
 	job, pend := vC22WitnessJoin(t, e, "node-b")
 	if d := vC22WitnessComplete(e, "failed complete", job, pend[0], "boom"); !d.returned() {
 		t.Fatalf("failed completion of the running job did not return")
 	}
-	d = vC22WitnessComplete(e, "late failed complete", job, pend[0], "boom")
+	d := vC22WitnessComplete(e, "late failed complete", job, pend[0], "boom")
 	if !d.returned() {
 		t.Fatalf("a second failed completion for the (aborted) job never returns: nothing receives from the job's result channel any more\n%s", vC22Dump(vC22Quiesce(e.ignore)))
 	}
@@ -95,6 +104,7 @@ func TestVerifWitness_D23(t *testing.T) {
 // and the next join is never processed.
 func TestVerifWitness_DX2(t *testing.T) {
 	e := vC22NewEnv(t, []string{"node-a"}, 1)
+	defer os.RemoveAll(e.dir)
 	vC22WitnessJoin(t, e, "node-b")
 	d := e.run("abort", func() error { return e.api.ResizeAbort() })
 	if !d.returned() || d.err != nil {
